@@ -75,6 +75,11 @@ NamesOf(net) == {r.o : r \in UNION {z.recs : z \in net.zones}}
 Bound(net, lim) ==
     4 * Cardinality(AddrsOf(net)) * (Cardinality(NamesOf(net)) + 1) * (lim.ns + lim.rec + 2)
 
+\* alias chasing in the stub resolver (CachingClient): "ends with an answer or an error after a number of
+\* upstream queries bounded by" its hop limit: the first query plus at most StubHops followed aliases
+StubHops == 8
+StubQueriesOk(asked) == asked <= StubHops + 1
+
 (***************************************************************************)
 (* What an authoritative server sends (RFC 1034 section 4.3.2), used by    *)
 (* the resolver model.  A response is [rc, aa, an, ns, ad] with sets of    *)
